@@ -587,7 +587,7 @@ def harnesses(tier, seed):
     if not quick:
         hs.append(mk("3-loaders-cold+1crash+1fault", [base] * 3, "empty", b11))
         hs.append(mk("2-loaders-gzip+1crash+1fault", [dict(base, gzip=True)] * 2, "cached+stale-tmp", b11))
-        hs.append(mk("4-loaders-cold", [base] * 4, "empty", b00, 1500000))
+        hs.append(mk("4-loaders-cold", [base] * 4, "empty", b00, 400000))
     hs.append({"name": "4-loaders-preemption-bounded", "body": preempt_body_factory(4, "empty"), "bound": 1 if quick else 2,
                "bound_text": "preemption bound %d" % (1 if quick else 2)})
     names = remote_names()
